@@ -18,7 +18,7 @@ for p in props:
         'evidence_file': f'/verif/evidence/{pid}.json',
         'replay_cmd_template': './check ' + pid + ' --replay {path}',
         'engine': pc.get('engine', 'verus'),
-        'level_claimed': {'category': pc.get('level', 'proof'), 'text': pc['level_text'], 'design_ref': pc.get('design_ref', f'DESIGN.md §5 {pid}')},
+        'level_claimed': {'category': ('other' if pc.get('level') == 'bounded' else pc.get('level', 'proof')), 'text': pc['level_text'], 'design_ref': pc.get('design_ref', f'DESIGN.md §5 {pid}')},
         'level_note': pc['level_note'],
         'technique': pc.get('technique', 'contract-based deductive verification (Verus) of the real source, woven with contracts on every run'),
     })
